@@ -82,21 +82,33 @@ def c11_dir(job, drv):
                 cls = "wrong"
             if cls != "ok":
                 fails[cls].append(n)
-                if len(examples) < 4 or (label != "prefix" and len(examples) < 8):
+                if sum(1 for e in examples if e["class"] == cls and e["fault"] == label) < 3:
                     examples.append({"fault": label, "length": n, "protocol": key, "class": cls,
-                                     "response_latin1": drv.b2s(out[:200]), "exception": r["exc"], "log": r["log"][-2:]})
+                                     "response_latin1": drv.b2s(out[:300]), "expected_latin1": drv.b2s(refs[key][:300]),
+                                     "exception": r["exc"], "log": r["log"][-2:]})
             with open(cachepath, "rb") as f:
                 now = f.read()
-            restored = False
-            try:
-                restored = _entry_view(pickle.loads(now)) == view0
-            except Exception:
-                restored = False
+            # format-agnostic: the file is again what an undisturbed writer produces (byte for byte, or at least
+            # an equal entry list when it is a single pickle)
+            restored = now == B
+            if not restored and view0 is not None:
+                try:
+                    restored = _entry_view(pickle.loads(now)) == view0
+                except Exception:
+                    restored = False
             if not restored:
                 not_restored.append(n)
             return cls
 
-        view0 = _entry_view(pickle.loads(B))
+        # Is the file one pickle of an entry list (the format the codec hypotheses of Props/C11.v describe)?
+        view0 = None
+        try:
+            obj = pickle.loads(B)
+            if isinstance(obj, list):
+                view0 = _entry_view(obj)
+        except Exception:
+            view0 = None
+        single_pickle = view0 is not None
         S, rem = job.get("mod", [1, 0])      # this job handles the lengths n with n % S == rem
         for n in range(lo, hi + 1):
             if n == size or n % S != rem:
@@ -124,14 +136,14 @@ def c11_dir(job, drv):
         undecodable = 0
         decodable_prefixes = []
         exc_types = {}
-        for n in (range(0, size) if first else ()):
+        for n in (range(0, size) if (first and single_pickle) else ()):
             try:
                 pickle.loads(B[:n])
                 decodable_prefixes.append(n)
             except Exception as e:
                 undecodable += 1
                 exc_types[type(e).__name__] = exc_types.get(type(e).__name__, 0) + 1
-        roundtrip = _entry_view(pickle.loads(pickle.dumps(pickle.loads(B), 1))) == view0
+        roundtrip = single_pickle and _entry_view(pickle.loads(pickle.dumps(pickle.loads(B), 1))) == view0
         zero_fails = False
         try:
             pickle.loads(bytes(size))
@@ -150,7 +162,7 @@ def c11_dir(job, drv):
         resource.setrlimit(resource.RLIMIT_AS, (vm_now + (1 << 30), hard))
         holes["memory_errors"] = 0
         try:
-          for a in (range(0, size, step) if first else ()):
+          for a in (range(0, size, step) if (first and single_pickle) else ()):
             for ln in lens:
                 if a + ln > size:
                     continue
@@ -177,7 +189,7 @@ def c11_dir(job, drv):
                 "prefix_fail_counts": prefix_counts, "others": others, "not_restored": not_restored, "first_shard": first, "mod": [S, rem],
                 "followup_bad": followup_bad, "followups": followups, "examples": examples, "secs": round(time.time() - t0, 2),
                 "cache_latin1": drv.b2s(B) if job.get("return_cache") else None,
-                "pickle": {"strict_prefixes": size, "undecodable": undecodable, "decodable_prefixes": decodable_prefixes[:10],
+                "pickle": {"single_pickle_of_a_list": single_pickle, "strict_prefixes": size, "undecodable": undecodable, "decodable_prefixes": decodable_prefixes[:10],
                            "exception_types": exc_types, "roundtrip_identity": roundtrip, "zero_filled_fails": zero_fails},
                 "holes": holes}
     finally:
